@@ -40,7 +40,7 @@ func init() {
 		Rule: "one run = 8-20 blocks (some ending in a node crash before/inside Commit and restart) of publish-link / store-signature messages aimed at a small set of colliding reference ids and addresses " +
 			"(valid ECDSA P-256 and RSA-2048 records, and records with exactly one field tampered: signature, algorithm, certificate, address, reference id, payload link), followed by VerifySignature queries on every combination; " +
 			"non-trivial = at least one valid verification and one tampered verification were answered; distinct = hash of (record kind, tamper kind, answer) set, collisions hit, crashes fired",
-		Quick:      Tier{Runs: 500, BudgetSec: 50},
+		Quick:      Tier{Runs: 2500, BudgetSec: 50},
 		Thorough:   Tier{Runs: 30000, BudgetSec: 700},
 		RunSeed:    c15RunSeed,
 		Replay:     c15Replay,
@@ -241,6 +241,14 @@ func (g *c15Gen) txGen(r *kernel.Run, _ *kernel.Rng) *kernel.Tx {
 			key = strings.ToUpper(key) // another spelling of the same hex digest is another key
 		case 1:
 			key = key + " "
+		case 2:
+			key = hexHash(key) // the digest of a key somebody may have published already
+		}
+		switch rng.Intn(10) {
+		case 0:
+			link = "" // an empty link is a valid message
+		case 1:
+			link = " "
 		}
 		return sigMsgTx(creator, &sigtypes.MsgPublishReferencePayloadLink{Creator: kernel.ActorBech(creator), Key: key, Value: link}, "publish")
 	}
